@@ -51,6 +51,11 @@ class StubSigner(object):
         if self.pub_as_bytes == 'nonascii':
             return 'PUBKEY-%d jos\u00e9@b\u00fccherwurm \u9375' % self.kid      # a key comment outside ASCII, returned as text like the shipped signers do
         pk = 'PUBKEY-%d user@host' % self.kid
+        if self.pub_as_bytes == 'bytearray':
+            # a signer that hands out the bytearray it stores (the library accepts bytes-like keys): the caller must not modify it
+            if not hasattr(self, '_stored'):
+                self._stored = bytearray(pk.encode())
+            return self._stored
         return pk.encode() if self.pub_as_bytes else pk
 
 
@@ -347,6 +352,25 @@ class Session(object):
                     return self.run(lambda d: d.push(path, device_path, **kw))
                 finally:
                     env.write_hook = None
+            if src[0] == 'fifo':
+                # a source whose read() may return less than asked for before end-of-file: a named pipe fed in pieces by another thread
+                import threading
+                import time as _t
+                path = os.path.join(base, 'pipe')
+                os.mkfifo(path)
+
+                def feed(pieces=src[1], gap=src[2]):
+                    with open(path, 'wb', buffering=0) as w:
+                        for i, pc in enumerate(pieces):
+                            if i:
+                                _t.sleep(gap)
+                            w.write(pc)
+                th = threading.Thread(target=feed, daemon=True)
+                th.start()
+                try:
+                    return self.run(lambda d: d.push(path, device_path, **kw))
+                finally:
+                    th.join(5)
             if src[0] == 'dir':
                 d0 = os.path.join(base, 'tree')
                 os.mkdir(d0)
@@ -374,7 +398,12 @@ class Session(object):
                         arg = d0
                     else:
                         arg = d0
-                    return self.run(lambda d: d.push(arg, device_path, **kw))
+                    _ld = os.listdir
+                    os.listdir = lambda p_='.': sorted(_ld(p_))        # a fixed directory order (the library's own order is the OS's)
+                    try:
+                        return self.run(lambda d: d.push(arg, device_path, **kw))
+                    finally:
+                        os.listdir = _ld
                 finally:
                     os.chdir(cwd)
             raise HarnessError('unknown push source %r' % (src[0],))
